@@ -1645,6 +1645,15 @@ def run(chk):
         chk.known(entry["what_fails"])
     if entry2 is not None and reproduces(witness2_reproduces):
         chk.known(entry2["what_fails"])
+    if entry2 is None and reproduces(witness2_reproduces):
+        # regression corpus: the witness of the repaired finding C10-F46 (status fixed: nothing is suppressed for its
+        # class in the streams above; theorems C10_lt_asymmetric, C10_relink_whole_record_witness)
+        chk.violation("counterexample", "circular record of 300: the candidate cluster covering the whole record as [0:300] and "
+                      "the origin-spanning candidate swap numbers on reload (repaired finding " + KNOWN_CLASS2 + " is back)",
+                      {"theorem_or_correspondence": "C10_relink_whole_record_witness / regression witness of " + KNOWN_CLASS2,
+                       "input": {"record": "circular, 300 bases",
+                                 "protoclusters": [("a", "join{[249:300](+), [0:109](+)}", "core [10:50](+)"),
+                                                   ("b", "[89:260](+)", "core [150:200](+)")]}})
     if entry3 is not None and reproduces(witness3_reproduces):
         chk.known(entry3["what_fails"])
     for ent, wit in ((entry4, witness4_reproduces), (entry5, witness5_reproduces), (entry6, witness6_reproduces),
